@@ -790,7 +790,7 @@ fn run_constructors(off: u64, rep: &mut Report) {
                                 rep.violation("from_vec-accepts-invalid-list", format!("{nm} accepted {list:?}"), case.clone());
                             } else {
                                 // must denote the right set (membership over the window)
-                                let bad = pts.iter().chain([&(base + 6), &MAX]).any(|h| x.contains(*h) != set.contains(h));
+                                let bad = pts.iter().chain([&base.saturating_add(6), &MAX]).any(|h| x.contains(*h) != set.contains(h));
                                 if bad {
                                     rep.violation("from_vec-wrong-set", format!("{nm}({list:?}) = {:?}", repr(x)), case.clone());
                                 }
